@@ -164,6 +164,10 @@ def gen_workspace(rng, npatches=None, fail_prob=0.4, features=("modify", "create
                     # differing names, the old one was on disk at the start and was deleted or renamed away
                     # earlier in the series (in memory within one invocation, on disk across invocations)
                     on = prefix_a + rng.choice(gone)
+                elif 0.3 <= r < 0.37 and len(existing) > 1:
+                    # differing names that BOTH exist: the old one is patched, also by a -R entry (seeded C16-h) - the
+                    # hunks were made for the other file, so this usually fails; what matters is which file it is tried on
+                    on = prefix_a + rng.choice([x for x in existing if x != n])
                 if b"/" in n and rng.random() < 0.15:
                     # another spelling of the same path: the files are kept by Path, "a//b" and "a/./b" are "a/b"
                     alt = n.replace(b"/", rng.choice([b"//", b"/./", b"///"]), 1)
@@ -270,10 +274,17 @@ def gen_workspace(rng, npatches=None, fail_prob=0.4, features=("modify", "create
                 for i in rng.sample(idx, min(len(idx), rng.randint(1, 2))):
                     ls[i] = ls[i][:1] + b"DOES NOT MATCH"
                 text = b"\n".join(ls)
-            if rng.random() < 0.25:
+            gone_in_dir = [x for x in init if b"/" in x and x not in new_tree]
+            if rng.random() < 0.25 or (gone_in_dir and rng.random() < 0.5):
                 # one more failing file patch: a file that is not there, in a directory that is not there either (its
                 # reject is bypassed; the rejects of the others must still be written) - before or after the rest
                 miss = b"--- " + prefix_a + b"nodir/x%d\n+++ " % pi + prefix_b + b"nodir/x%d\n@@ -1 +1 @@\n-q\n+r\n" % pi
+                if gone_in_dir and rng.random() < 0.7:
+                    # ... or a file that an earlier patch of the series deleted or moved away, in a directory that the
+                    # push may have emptied by then: whether its reject is written depends on when directories are
+                    # cleaned - the same for every thread count (seeded C06-h)
+                    g = rng.choice(gone_in_dir)
+                    miss = b"--- " + prefix_a + g + b"\n+++ " + prefix_b + g + b"\n@@ -1 +1 @@\n-q\n+r\n"
                 if text.startswith((b"diff ", b"--- ", b"Index: ")) and rng.random() < 0.5:
                     text = miss + text
                 else:
